@@ -240,20 +240,22 @@ class ElementParser:
         namespace = self.namespaces[-1].copy()
         self.namespaces.append(namespace)
         node = parse_tag(token, namespace, self.restricted_namespace)
-        self.index.append((node['name'], len(self.queue)))
+        # (the depth of the namespace stack below this element is kept,
+        # since an end tag may close several elements at once)
+        self.index.append(
+            (node['name'], len(self.queue), len(self.namespaces) - 1))
         return kind, (node, )
 
     def visit_end_tag(self, kind, token):
-        try:
-            namespace = self.namespaces.pop()
-        except IndexError:
-            raise ParseError("Unexpected end tag.", token)
-
+        namespace = self.namespaces[-1]
         node = parse_tag(token, namespace, self.restricted_namespace)
 
         while self.index:
-            name, pos = self.index.pop()
+            name, pos, depth = self.index.pop()
             if name == node['name']:
+                # Leave the scope of the element and of the unclosed
+                # elements inside it.
+                del self.namespaces[depth:]
                 start, = self.queue.pop(pos)[1]
                 children = self.queue[pos:]
                 del self.queue[pos:]
